@@ -22,7 +22,7 @@ ICON_SIZE = ('sym', 'st.small_icon_size@entry', 0, 32768)
 class FrameSetup(object):
     """Builds the abstract entry state of parseFrame and the summary of lltd_state_for_iface."""
 
-    def __init__(self, prog, mtu_ok=True, alloc_may_fail=True, fresh_state=False):
+    def __init__(self, prog, mtu_ok=True, alloc_may_fail=True, fresh_state=False, init_cells=None):
         self.prog = prog
         self.ix = prog.unit(BLOCK_UNIT)
         for f in ('parseFrame', 'lltd_state_for_iface'):
@@ -37,6 +37,7 @@ class FrameSetup(object):
         self.srec = t.rec
         self.prec = self.ix.parse_type('probe_t').rec
         self.fresh_state = fresh_state
+        self.init_cells = init_cells      # {offset: (width, term)} overriding the symbolic entry record
         self.frame_size = PortModel.MTU if mtu_ok else ('sym', 'rxbuf.size', 1500, 9216)
 
     def soff(self, name):
@@ -66,6 +67,12 @@ class FrameSetup(object):
         so.cells[((), self.soff('mapper_known'))] = (1, KNOWN)
         so.cells[((), self.soff('see_list_count'))] = (4, SEEN_COUNT)
         so.cells[((), self.soff('small_icon_size'))] = (8, ICON_SIZE)
+        if self.init_cells:
+            pf = dict(so.ptr_fields)
+            for off, (w, t) in self.init_cells.items():
+                so.cells[((), off)] = (w, t)
+                pf.pop(off, None)
+            so.ptr_fields = pf
 
     def summary_state_for_iface(self, I, st, args, node, rty):
         """Summary of lltd_state_for_iface (verified separately by rule R09.1/R17.2/R18.a):
@@ -217,7 +224,8 @@ def _region_worker(args):
         return region, None, str(e), None, None
     obs = [_slim_ob(ob) for ob in I.obs.values()]
     info = {k: {kk: vv for kk, vv in v.items() if kk != 'node'} for k, v in (I.loop_info or {}).items()}
-    stats = {'steps': I.steps, 'max_states': I.max_states, 'functions': sorted(I.functions_seen), 'loops': info}
+    stats = {'steps': I.steps, 'max_states': I.max_states, 'functions': sorted(I.functions_seen), 'loops': info,
+             'extra': getattr(I, 'extra', None)}
     for st, v in outs:
         st.counter = [0]
     return region, [(st, v.t) for st, v in outs], None, obs, stats
@@ -260,3 +268,27 @@ def run_regions(fs, regions=None, engine_cls=Engine, tracked=(TOS, OPC), extra=N
                     cur['ok'] = False
                     cur['msg'] = cur['msg'] or o['msg']
     return results, list(obs.values()), stats
+
+
+def entry_icon_exists(fs, st):
+    """Did the cached icon exist at entry on this path?  True / False / None (not examined)."""
+    off = fs.soff('small_icon')
+    ps = ('pset', ('in', 'st', off), (ZERO, ('ptr', 'heap:cached.icon', ZERO)))
+    c = st.canon(ps)
+    if c == ZERO:
+        return False
+    if c[0] == 'ptr':
+        return True
+    return None
+
+
+def live_heap(fs, st, ignore=('st',)):
+    """Heap objects live in this final state (entry placeholders that did not exist on this path are skipped)."""
+    out = []
+    for oid, o in st.objs.items():
+        if not (o.heap and o.live) or o.weak or oid in ignore:
+            continue
+        if oid == 'heap:cached.icon' and entry_icon_exists(fs, st) is False:
+            continue
+        out.append(oid)
+    return out
